@@ -387,7 +387,59 @@ func scClusterNode(i int) {
 	r.Stop().Wait()
 }
 
+// scChildrenCrash: several sibling children exceed their restart budget at the same moment (a bad message
+// fanned out to a worker pool with a small MaxRestarts), each on its own goroutine, while the parent lists
+// its children: they all leave the parent's children map concurrently.
+type fanParent struct {
+	p    *probe
+	kids []*actor.PID
+}
+
+func (r *fanParent) Receive(c *actor.Context) {
+	r.p.touch(c.Message())
+	switch m := c.Message().(type) {
+	case actor.Started:
+		for k := 0; k < 6; k++ {
+			pr := &probe{}
+			r.kids = append(r.kids, c.SpawnChild(func() actor.Receiver { return &probing{p: pr, panicOn: 666} }, "w", actor.WithID(fmt.Sprint(k)), actor.WithMaxRestarts(k%2), actor.WithRestartDelay(0)))
+		}
+	case string:
+		switch m {
+		case "fan":
+			for _, kid := range r.kids {
+				c.Send(kid, 666)
+			}
+		case "query":
+			for _, ch := range c.Children() {
+				_ = ch
+			}
+		}
+	}
+}
+
+func scChildrenCrash(i int) {
+	e, _ := actor.NewEngine(actor.NewEngineConfig())
+	root := e.Spawn(func() actor.Receiver { return &fanParent{p: &probe{}} }, "p", actor.WithID("1"))
+	e.Send(root, "fan")
+	for k := 0; k < 8; k++ {
+		e.Send(root, "query")
+	}
+	waitFor(func() bool {
+		for k := 0; k < 6; k++ {
+			if e.Registry.GetPID("p/1/w", fmt.Sprint(k)) != nil {
+				return false
+			}
+		}
+		return true
+	})
+	select {
+	case <-e.Poison(root).Done():
+	case <-time.After(5 * time.Second):
+	}
+}
+
 var scenarios = map[string]func(int){
+	"children-crash": scChildrenCrash,
 	"cluster-node": scClusterNode,
 	"inbox": scInbox, "engine-lifecycle": scEngineLifecycle, "registry": scRegistry,
 	"event-stream": scEventStream, "children": scChildren, "request": scRequest, "ring": scRing,
